@@ -70,6 +70,9 @@ R3  placeholders = parameters.  Symbolic count on the expanded view (see above) 
     may iterate each pair's parameters when every pair holds a list; when some pair holds the bare value it must wrap
     first.  Query level (every method of the query module reachable from a query class's to_sql): per block, the placeholders appended to _conditions = the parameters pushed onto _params; the
     text and parameters Filter.to_sql returned (unpacked, read by index or by field) count as one matching group;
+    a block that pushes the method's own parameters (a helper handed a condition with its values, `*values` included)
+    is counted at each of its calls - the placeholders of the text argument = the values passed with it - and left to
+    R6 where a call spreads (`*pair`) or the method is used other than by a resolved call;
     what cannot be followed is decided by R6.  By evaluation: Filter.to_sql is run
     by the checker's interpreter on a table of filters (every attribute alone with ordinary and zero values, single
     strings and lists, every region type in every position, legal mixes) and must return exactly the documented
@@ -2217,8 +2220,56 @@ def rule_placeholders(ctx):
             if f_.module is qm and f_.cls is not None and '.<locals>.' not in f_.qualname:
                 qfns.setdefault(f_.qualname, f_)
     nblocks = 0
-    for qn in sorted(qfns):
-        fq = _view(prog, qfns[qn])       # expanded and constant-folded: the text is what the database sees
+    qviews = {qn: _view(prog, qfns[qn]) for qn in sorted(qfns)}   # expanded and constant-folded: the text is what the database sees
+
+    def piece(x):
+        """one push as (kind, argument): 'cond' (a text appended), 'append' / 'extend' (parameters); (None, None) when
+        the statement is not one of these plain forms"""
+        if isinstance(x, ast.AugAssign):
+            return ('extend', x.value) if isinstance(x.op, ast.Add) else (None, None)
+        c = x.value
+        if len(c.args) != 1 or c.keywords or isinstance(c.args[0], ast.Starred):
+            return None, None
+        cn = call_name(c)
+        return ('cond' if cn.endswith('_conditions.append') else 'append' if cn.endswith('_params.append') else 'extend'), c.args[0]
+
+    def count_piece(fi, kind, e):
+        """(placeholders, parameters, undecided?) that one push contributes, its argument e read in function fi"""
+        arg = _pair_component(prog, fi, e, pfields)
+        filt = isinstance(arg, tuple) and arg[0] == 'filter'
+        if kind == 'cond':
+            if filt:
+                # the text Filter.to_sql returned ...
+                return Counter({'filter' if arg[1] == 0 else "the filter's parameters, as text": 1}), Counter(), False
+            qc = None if isinstance(arg, tuple) else qcnt.q(fi, arg)
+            return qc or Counter(), Counter(), qc is None
+        if kind == 'append':
+            return Counter(), Counter({'1': 1}), isinstance(arg, tuple)
+        if filt:
+            # ... and the parameters it returned with it (R3 above: as many)
+            return Counter(), Counter({'filter' if arg[1] == 1 else "the filter's text, as parameters": 1}), False
+        pc = None if isinstance(arg, tuple) else qcnt.p(fi, arg)
+        return Counter(), pc or Counter(), pc is None
+
+    def call_sites(fq):
+        """(calls of method fq from the query methods as (caller, call), is every use of it such a resolved call?)"""
+        sites, closed = [], True
+        for g in qviews.values():
+            for x in ast.walk(g.node):
+                if not (isinstance(x, ast.Attribute) and x.attr == fq.node.name and isinstance(x.ctx, ast.Load)):
+                    continue
+                c = getattr(x, '_parent', None)
+                if not (isinstance(c, ast.Call) and c.func is x):
+                    closed = False          # handed on as a value (a callback): its arguments are not visible
+                    continue
+                callee = _callee(prog, g, c)
+                if callee is None or not any(c is y for y in walk_no_nested(g.node)):
+                    closed = False
+                elif callee.module is fq.module and callee.qualname == fq.qualname:
+                    sites.append((g, c))
+        return sites, closed
+
+    for qn, fq in qviews.items():
         blocks = {}
         for x in walk_no_nested(fq.node):
             if isinstance(x, ast.Expr) and isinstance(x.value, ast.Call):
@@ -2228,45 +2279,53 @@ def rule_placeholders(ctx):
             if isinstance(x, ast.AugAssign) and norm(x.target) == 'self._params':
                 blocks.setdefault(id(getattr(x, '_parent', None)), []).append(x)
         nblocks += len(blocks)
+        a_ = fq.node.args
+        own = [y.arg for y in a_.posonlyargs + a_.args]
+        own = own[1:] if own[:1] in (['self'], ['cls']) else own
+        var = a_.vararg.arg if a_.vararg else None
         for blk in blocks.values():
+            pieces = [piece(x) for x in blk]
+            # a push whose argument is a parameter of the method itself: the method is a helper that is handed a condition
+            # together with its parameters, so the text and the values to count are those of each call, not the method's
+            handed = [isinstance(e, ast.Name) and e.id in own + [var] and not local_defs(fq.node, e.id) for _, e in pieces]
+            if any(handed) and all(k for k, _ in pieces):
+                sites, closed = call_sites(fq)
+                if not closed:
+                    pending.append((fq, norm(blk[0])[:60]))
+                for g, c in sites:
+                    what = f'{norm(c)[:60]} [{fq.qualname}]'
+                    if c.keywords or any(isinstance(y, ast.Starred) for y in c.args) or len(c.args) < len(own) \
+                            or (len(c.args) > len(own) and var is None) or a_.kwonlyargs or a_.kwarg:
+                        pending.append((g, what))
+                        continue
+                    q, p, und = Counter(), Counter(), False
+                    for (kind, e), h in zip(pieces, handed):
+                        if h and e.id == var:
+                            # *values: one parameter for every further argument of the call
+                            und = und or kind != 'extend'
+                            p += Counter({'1': len(c.args) - len(own)})
+                            continue
+                        q1, p1, u1 = count_piece(g, kind, c.args[own.index(e.id)]) if h else count_piece(fq, kind, e)
+                        q, p, und = q + q1, p + p1, und or u1
+                    if und:
+                        pending.append((g, what))
+                        continue
+                    ok = +q == +p
+                    ctx.ob('C14-R3', g, f'call `{norm(c)[:50]}` of {fq.qualname}', ok,
+                           f'{dict(+q)} placeholders = {dict(+p)} parameters' if ok else
+                           (f'{dict(+q)} placeholders in the condition but {dict(+p)} parameters handed over with it: the helper '
+                            'pushes both, so the parameters of the conditions that follow are bound one position off'),
+                           line=c.lineno)
+                continue
             q = Counter()
             p = Counter()
             und = False
-            for x in blk:
-                if isinstance(x, ast.AugAssign):
-                    arg = _pair_component(prog, fq, x.value, pfields)
-                    if isinstance(arg, tuple) and arg[0] == 'filter' and isinstance(x.op, ast.Add):
-                        p += Counter({'filter' if arg[1] == 1 else "the filter's text, as parameters": 1})
-                        continue
-                    pc = None if isinstance(arg, tuple) or not isinstance(x.op, ast.Add) else qcnt.p(fq, arg)
-                    p += pc if pc else Counter()
-                    und = und or pc is None
-                    continue
-                c = x.value
-                cn = call_name(c)
-                if len(c.args) != 1 or c.keywords or isinstance(c.args[0], ast.Starred):
+            for kind, e in pieces:
+                if kind is None:
                     und = True
                     continue
-                arg = _pair_component(prog, fq, c.args[0], pfields)
-                if cn.endswith('_conditions.append'):
-                    if isinstance(arg, tuple) and arg[0] == 'filter':
-                        # the text Filter.to_sql returned ...
-                        q += Counter({'filter' if arg[1] == 0 else "the filter's parameters, as text": 1})
-                    else:
-                        qc = None if isinstance(arg, tuple) else qcnt.q(fq, arg)
-                        und = und or qc is None
-                        q += qc or Counter()
-                elif cn.endswith('_params.append'):
-                    und = und or isinstance(arg, tuple)
-                    p += Counter({'1': 1})
-                elif cn.endswith('_params.extend'):
-                    if isinstance(arg, tuple) and arg[0] == 'filter':
-                        # ... and the parameters it returned with it (R3 above: as many)
-                        p += Counter({'filter' if arg[1] == 1 else "the filter's text, as parameters": 1})
-                    else:
-                        pc = None if isinstance(arg, tuple) else qcnt.p(fq, arg)
-                        und = und or pc is None
-                        p += pc or Counter()
+                q1, p1, u1 = count_piece(fq, kind, e)
+                q, p, und = q + q1, p + p1, und or u1
             if und:
                 pending.append((fq, norm(blk[0])[:60]))
                 continue
